@@ -1,7 +1,7 @@
 """C14 -- every Ping is answered by exactly one matching Pong, in order."""
 from .. import conncheck
 
-SERVER = ['eof', 'ping', 'ping-empty', 'ping-125', 'ping-ping', 'two', 'text', 'frag-text', 'frag-cont', 'frag-end',
+SERVER = ['eof', 'ping', 'ping-empty', 'ping-125', 'ping-high', 'ping-ping', 'two', 'text', 'frag-text', 'frag-cont', 'frag-end',
           'ping-text-close', 'close-1000', 'ping!fail', 'silence', 'ping-then-bad']
 APPS = ['send_text', 'send_pong', 'close']
 
@@ -14,7 +14,7 @@ class C14(conncheck.ConnCheck):
                  'x a write fault on the Pong; the reference model predicts the exact client frame sequence (Pongs before any later application '
                  'write, none after the client Close, none with auto_pong off) and the undisturbed event stream')
     assumptions = [
-        'Ping payload menu: empty, 1 byte, 125 bytes 00..7c (all byte values below 0x7d), two in one read; arbitrary payload bytes are covered by C01/C03',
+        'Ping payload menu: empty, 1 byte, 125 bytes 00..7c, 125 bytes 83..ff, two in one read; arbitrary payload bytes are covered by C01/C03',
         'a failed Pong write is injected as OSError(EPIPE) on exactly that sendall; later writes succeed again',
     ]
     kinds = ('wire-pong', 'wire-other', 'wire-close', 'events-differ', 'unexpected-event', 'events-missing', 'exception-escaped',
